@@ -4,6 +4,7 @@ classify (property violated on the implementation vs. mere divergence from the m
 import concurrent.futures as cf
 import subprocess
 import threading
+import time
 import hashlib
 import os
 import collections
@@ -227,8 +228,9 @@ def _account(stats, meta, ops, model_lines):
         stats.samples.append(ops[:40])
 
 
-CHUNK_TIMEOUT = 150
-ONE_TIMEOUT = 25
+CHUNK_TIMEOUT = 90
+FAIL_BUDGET_S = 240
+ONE_TIMEOUT = 20
 
 
 def _run_chunk(args):
@@ -264,11 +266,20 @@ def run_histories(hists, harness, proj, stats, chunk=300, max_fail=4, workers=No
             if (m["kind"] == "violation" and nv < max_fail) or (m["kind"] != "violation" and nd < 2):
                 failures.append(dict(ops=ops, meta=meta, mismatch=m))
 
+    t_start = time.time()
+
+    def enough():
+        with lock:
+            nv = sum(1 for f in failures if f["mismatch"]["kind"] == "violation")
+        # stop exploring once the verdict is settled: enough concrete violations, or the time budget
+        # for a failing run is used up (a passing run never comes near it)
+        return nv >= max_fail or (failures and time.time() - t_start > FAIL_BUDGET_S)
+
     def work(idx_c):
         idx, c = idx_c
         todo = c
         rounds = 0
-        while todo:
+        while todo and not enough():
             rounds += 1
             _, r = _run_chunk((f"{idx}_{rounds}", todo, harness))
             hi = core.split_histories(r["impl"])
